@@ -10,7 +10,7 @@
    PARTIAL: the equivalence of this step automaton with the move-level wording of the rule book
    (T2 of DESIGN.md: prefixes of legal turns) is not proved here. *)
 From Coq Require Import NArith List Bool.
-From Arimaa Require Import Types U64 Board Engine Cells Rules Monitors Refine Invariant.
+From Arimaa Require Import Types U64 Board Engine Cells Rules Monitors Refine Invariant Traps Pending.
 Open Scope N_scope.
 
 Theorem C01_offered_iff_rules : forall s pp i d, PlayInv s pp ->
@@ -37,3 +37,29 @@ Theorem C01_invariant_preserved : forall s pp a, PlayInv s pp -> In a (valid_act
   exists pp', PlayInv (take_action s a) pp'.
 Proof. exact action_preserves. Qed.
 Print Assumptions C01_invariant_preserved.
+
+(* every state inside a turn can be continued to a complete legal turn within the four steps: a pass is offered now,
+   or the pending push has an offered completion after which the turn is over (fourth step) or a pass is offered.
+   pending_ok holds along every game from the initial state or a legal start position (C12_pending_nonempty). *)
+Theorem C01_completable : forall s pp, PlayInv s pp -> pending_ok s pp -> 1 <= step_of pp -> move_no s < P64 ->
+  In Pass (valid_actions_no_rep s) \/
+  exists i d, In (Move i d) (valid_actions_no_rep s) /\
+              (3 <= step_of pp \/ In Pass (valid_actions_no_rep (take_action s (Move i d)))).
+Proof. exact completable. Qed.
+Print Assumptions C01_completable.
+
+(* strictness: the completer of a push is a friendly, unfrozen, STRICTLY stronger piece stepping into the vacated square *)
+Theorem C01_strict_completion : forall s pp sq k i d, PlayInv s pp -> pstate pp = MustCompletePush sq k ->
+  In (Move i d) (valid_actions_no_rep s) ->
+  exists k', cell (board s) i = Some (side s, k') /\ stronger k' k = true /\ frozen (cell (board s)) i = false /\ dst_of i d = Some sq.
+Proof. exact strict_completion. Qed.
+Print Assumptions C01_strict_completion.
+
+Theorem C01_equal_strength_never : forall k, stronger k k = false.
+Proof. exact stronger_irrefl. Qed.
+Print Assumptions C01_equal_strength_never.
+
+Theorem C01_rabbit_never_backward : forall s pp i d, PlayInv s pp -> In (Move i d) (valid_actions_no_rep s) ->
+  cell (board s) i = Some (side s, Rabbit) -> backward (side s) d = false.
+Proof. exact own_rabbit_not_backward. Qed.
+Print Assumptions C01_rabbit_never_backward.
